@@ -10,6 +10,10 @@ and the number of bytes that got through before an error cannot be predicted) an
 * `e2e_datagram_once`     datagrams delivered at most once and unmodified
 * `e2e_transfer_completes` no path outage (every schedule here: ≤ 4 faults, delays ≤ 3 s < idle timeout) ⇒ the dial
                           succeeds and every stream is transferred completely within the deadline
+* `e2e_connection_survives` (round 4, `y=` scenarios: idle timeout T, silence q after an ACK-only tail, then a write
+                          with an outage of d ms) whenever the parameters satisfy `mustSurvive` — every silence and
+                          every outage is shorter than the idle timeout with 1 s to spare, RFC 9000 10.1 — the
+                          phase-2 stream arrives completely and both connections are still alive afterwards
 -/
 open Uquic.Oracle
 
@@ -39,6 +43,27 @@ def parseObs (s : String) : List SObs :=
     anything a handful of lost datagrams causes, below the idle timeout -/
 def completionBoundMs : Nat := (Uquic.Gen.Protocol.DefaultIdleTimeout / 1000000).toNat
 
+/-- Phase-2 parameters `y=T,ka,q,who,outDir,d` (ms). A conforming endpoint restarts its idle timer when it receives a
+    packet and when it sends the first ack-eliciting packet after that (RFC 9000 10.1), so with margin `M` = 1 s:
+    * no keep-alive: the silence must end before the timeout, `q ≤ T - M`;
+    * outage towards the writer only: the writer's timer restarted at the write; with PTO back-off its first probe
+      after the outage is sent at most at `2d + PTO`, so `2d ≤ T - M` suffices; the reader hears every probe;
+    * outage of both directions: the reader has heard nothing since the end of phase 1: `q + 2d ≤ T - M`
+      (with keep-alives every `T/2`: `T/2 + 2d ≤ T - M`).
+    Phase 1 may contain at most 2 faults, delays ≤ 30 ms (so that its tail is not stretched by PTO back-off). -/
+def mustSurvive (T ka q outDir d : Nat) (faults : List String) : Bool :=
+  let M := 1000
+  let faultsOk := faults.length ≤ 2 && faults.all fun f =>
+    match f.splitOn ":" with
+    | [_, _, k, a] => k != "delay" || natOf a ≤ 30
+    | _ => false
+  let quietOk := ka == 1 || q + M ≤ T
+  let outOk := match outDir with
+    | 0 => true
+    | 1 => 2 * d + M ≤ T
+    | _ => if ka == 1 then T / 2 + 2 * d + M ≤ T else q + 2 * d + M ≤ T
+  T ≥ 3000 && faultsOk && quietOk && outOk
+
 def step (_ : Unit) (op impl : String) : Unit × StepOut := Id.run do
   let w := words op
   let mut tags : List String := []
@@ -63,27 +88,48 @@ def step (_ : Unit) (op impl : String) : Unit × StepOut := Id.run do
   | _ => pure ()
   for f in faults do
     match f.splitOn ":" with
-    | [d, i, k, _] =>
+    | [d, i, k, a] =>
       tags := tags ++ [s!"fault:{k}", if d == "0" then "fault:c2s" else "fault:s2c"]
       if natOf i < 4 then tags := tags ++ ["fault:handshake"]
+      if k == "flip" && natOf i < 2 && natOf a < 224 then
+        tags := tags ++ [s!"fault:header-field:dgram{i}:byte{natOf a / 8}"]
     | _ => pure ()
+  -- phase 2 (idle timer / keep-alive glue)
+  let hasX := (field op "x=").isSome
+  let yv := ((field op "y=").getD "").splitOn ","
+  let hasY := yv.length == 6
+  let yT := natOf (yv.getD 0 "0"); let yKa := natOf (yv.getD 1 "0"); let yQ := natOf (yv.getD 2 "0")
+  let yWho := natOf (yv.getD 3 "0"); let yOut := natOf (yv.getD 4 "0"); let yD := natOf (yv.getD 5 "0")
+  let judgeY := hasY && !hasX && mustSurvive yT yKa yQ yOut yD faults
+  if hasY then
+    tags := tags ++ ["style:idle-phase2", if yKa == 1 then "idle:keep-alive" else "idle:no-keep-alive",
+      if yWho == 0 then "idle:client-writes" else "idle:server-writes",
+      match yOut with | 0 => "idle:no-outage" | 1 => "idle:outage-towards-writer" | _ => "idle:outage-both"]
+    if yKa == 0 && yOut == 1 && yQ + yD > yT then tags := tags ++ ["idle:silence+outage>T"]
+    if yKa == 1 && yQ > yT then tags := tags ++ ["idle:silence>T-with-keep-alive"]
+    if !judgeY then tags := tags ++ ["idle:not-judged"]
   let dial := (field impl "dial=").getD "?"
   let c2s := parseObs ((field impl "c2s=").getD "-")
   let s2c := parseObs ((field impl "s2c=").getD "-")
-  let werr := (field impl "werr=").getD "?"
+  let werrAll := (field impl "werr=").getD "?"
+  -- phase-2 errors (p2-open / p2-write / p2-accept) are judged by e2e_connection_survives only
+  let werr1 := (werrAll.splitOn ",").filter fun e => !e.startsWith "p2-"
+  let werr := if werr1.isEmpty then "-" else ",".intercalate werr1
+  let p2 := parseObs ((field impl "p2=").getD "-")
+  let connSt := (field impl "conn=").getD "-,-"
   let t := natOf ((field impl "t=").getD "0")
   -- known finding C01-uquic-pto-probe-without-ping: a spec-driven client whose 1-RTT PTO fires with nothing to
   -- retransmit closes the connection with "couldn't pack 1-RTT probe packet" (uPacketPacker ignores addPingIfEmpty)
   let ptoBug := cl == "chrome" && ((impl.splitOn "couldn't_pack_1-RTT_probe_packet").length > 1)
   let kcls := if ptoBug then "uquic_pto_probe_without_ping" else "-"
-  for (dir, o) in (c2s.map fun o => ("c2s", o)) ++ (s2c.map fun o => ("s2c", o)) do
+  for (dir, o) in (c2s.map fun o => ("c2s", o)) ++ (s2c.map fun o => ("s2c", o)) ++ (p2.map fun o => ("phase2", o)) do
     if !o.pfx || o.got > o.want then
       fails := fails ++ [("e2e_prefix", "-", s!"{dir} stream {o.id}: the {o.got} bytes read are not a prefix of the {o.want} bytes written")]
     if o.err == "EOF" && o.got != o.want then
       fails := fails ++ [("e2e_prefix", "-", s!"{dir} stream {o.id}: EOF after {o.got} of {o.want} bytes")]
     if o.err == "EOF" && o.got == o.want && o.sha != o.wsha then
       fails := fails ++ [("e2e_prefix", "-", s!"{dir} stream {o.id}: complete length but different content")]
-    if werr == "-" && dial == "nil" && o.err != "EOF" then
+    if werr == "-" && dial == "nil" && o.err != "EOF" && (dir != "phase2" || (judgeY && werrAll == "-")) then
       fails := fails ++ [("e2e_complete", kcls, s!"{dir} stream {o.id}: writers report no error, reader got {o.got}/{o.want} bytes and {o.err}")]
     tags := tags ++ [if o.want == 0 then "stream:empty" else if o.want > 65536 then "stream:large" else "stream:data"]
   -- datagrams
@@ -104,6 +150,12 @@ def step (_ : Unit) (op impl : String) : Unit × StepOut := Id.run do
   else if t > completionBoundMs then
     fails := fails ++ [("e2e_transfer_completes", "-", s!"completed only after {t} ms (bound {completionBoundMs})")]
   tags := tags ++ [if complete then (if t > 2000 then "done:slow" else "done") else "incomplete"]
+  if judgeY && complete then
+    let p2ok := p2.length == 1 && p2.all (fun o => o.err == "EOF" && o.got == o.want)
+    if !p2ok || connSt != "nil,nil" then
+      fails := fails ++ [("e2e_connection_survives", kcls,
+        s!"idle timeout {yT} ms, keep-alive {yKa}, silence {yQ} ms, then a write by {if yWho == 0 then "the client" else "the server"} with an outage (kind {yOut}) of {yD} ms: phase-2 stream {if p2ok then "complete" else "INCOMPLETE"}, connections client,server = {connSt} werr={werrAll}")]
+    tags := tags ++ [if p2ok && connSt == "nil,nil" then "idle:survived" else "idle:died"]
   return ((), { model := impl, tags := tags, fails := fails })
 
 def main : IO Unit := run { init := (), step := step }
